@@ -45,31 +45,41 @@ def _slot(index, var):
 
 
 def flip_sites(f):
-    """Every block guarded by acq(a, b) == 0 that stores into slots of b: (a, b, site variable or None, {slot: (stmt, value)}, guard)."""
-    out = []
+    """Every group of stores into slots of a string b that can only run when acq(a, b) == 0 (an `if` on that test, or the code
+    after a guard clause that returns when the pair already anticommutes):
+    (a, b, site variable or None, {slot: (stmt, value)}, guard test, polarity ok)."""
+    groups = {}
     for st, ctx in walk(f.node):
-        if not isinstance(st, ast.If):
+        if not (isinstance(st, ast.Assign) and isinstance(st.targets[0], ast.Subscript) and isinstance(st.targets[0].value, ast.Name)):
             continue
-        ab = _acq_zero_guard(st.test)
-        if ab is None:
-            continue
-        g1, g2, pol_ok = ab
-        stores = [s for s in st.body if isinstance(s, ast.Assign) and isinstance(s.targets[0], ast.Subscript)
-                  and isinstance(s.targets[0].value, ast.Name) and s.targets[0].value.id == g2]
-        if not stores:
-            continue
+        b = st.targets[0].value.id
+        for t, pol in ctx.conds:
+            ab = _acq_zero_guard(t)
+            if ab is None or ab[1] != b:
+                continue
+            # the statement runs when (t, pol) holds: exactly for commuting pairs iff the test's own polarity agrees
+            good = ab[2] if pol else _acq_zero_guard(ast.UnaryOp(op=ast.Not(), operand=t))[2]
+            groups.setdefault((ab[0], b, id(t)), [t, good, []])[2].append(st)
+    out = []
+    for (g1, g2, _), (test, good, stores) in groups.items():
         names = {n.id for s in stores for n in ast.walk(s.targets[0].slice) if isinstance(n, ast.Name)}
-        var = sorted(names)[0] if len(names) == 1 else None
         if len(names) > 1:
-            out.append((g1, g2, None, None, st, pol_ok))
+            out.append((g1, g2, None, None, _T(test), good))
             continue
+        var = sorted(names)[0] if names else None
         ups = {}
         for s in stores:
             sl = _slot(s.targets[0].slice, var)
             if sl:
                 ups[sl] = (s, s.value)
-        out.append((g1, g2, var, ups, st, pol_ok))
+        out.append((g1, g2, var, ups, _T(test), good))
     return out
+
+
+class _T:
+    """A guard as the rules report it (.test is the expression)."""
+    def __init__(self, test):
+        self.test = test
 
 
 def flip_normal_form(run, f, loop_form):
@@ -330,7 +340,7 @@ def check(run):
     run.floor('R15', 14)
     run.floor('R3a', 8)
     run.floor('R8.flip', 3)
-    run.floor('R11.gate.random', 8)
+    run.floor('R11.gate.random', 16)
     run.floor('R13.sampler', 9)
     run.floor('R10.undo', 4)
     run.floor('R16', 3)
